@@ -373,7 +373,7 @@ def discharge(vc: VC, timeout_ms: int = 10000, retry: bool | int = True) -> Disc
     return Discharged(vc, "undecided", "z3", ms, None, reason)
 
 
-def verify_contract(repo: Repo, reg: Registry, c: Contract, timeout_ms: int = 10000):
+def verify_contract(repo: Repo, reg: Registry, c: Contract, timeout_ms: int = 10000, baseline_structure: dict | None = None):
     """-> (list[Discharged], engine, entry_state, error|None)"""
     try:
         vcs, eng, entry = generate(repo, reg, c)
@@ -383,7 +383,13 @@ def verify_contract(repo: Repo, reg: Registry, c: Contract, timeout_ms: int = 10
         return [], None, None, f"stale contract: {e}"
     out = []
     failures = 0
+    # a function whose loop / call structure is no longer the one its sidecar was written for (pyvc/run.py): its obligations are
+    # attempted once at the plain budget - failing ones are recorded as "proof to be redone", retries would only cost minutes
+    restructured = baseline_structure is not None and getattr(eng, "structure", None) is not None and eng.structure != baseline_structure
     for vc in vcs:
+        if restructured:
+            out.append(discharge(vc, timeout_ms, retry=0))
+            continue
         # once three obligations of a contract have failed, the remaining ones get the plain budget without the long
         # retry: the contract is evidently broken, and a broken tree must not make the check run for many minutes
         d = discharge(vc, timeout_ms, retry=2 if failures == 0 else (1 if failures < 3 else 0))
